@@ -117,6 +117,13 @@ def cases():
                         xml = HEAD + f'<xs:complexType name="T">{doc}{body}{attrs}</xs:complexType></xs:schema>'
                     out.append((f'c{k}', xml, ','.join(want)))
                     k += 1
+    # attributes declared on the complexType itself, after its complexContent (not in the XSD grammar, but read deliberately: ct_ok)
+    for ri, root in enumerate(roots[:60]):
+        names = []
+        body = _render(root, names)
+        xml = HEAD + (f'<xs:complexType name="T"><xs:complexContent><xs:extension base="t:B">{body}<xs:attribute name="inner" type="xs:string"/></xs:extension></xs:complexContent>'
+                      '<xs:attribute name="after1" type="xs:string"/><xs:attribute name="after2" type="xs:int"/></xs:complexType></xs:schema>')
+        out.append((f'k{ri}', xml, ','.join(BASE + list(names) + ['@inner', '@after1', '@after2'])))
     # anonymous-typed global elements: <xs:element name="T"><xs:complexType> tree + attributes </xs:complexType></xs:element>
     for ri, root in enumerate(roots[:150]):
         for nattr in (0, 2):
